@@ -217,6 +217,9 @@ func (m *monitor) onOut(id string) {
 	}
 	m.outSeq++
 	r.outIdx = m.outSeq
+	if r.Kids > 0 && r.kidsAcked >= r.kidsOut {
+		m.ackRecord(r) // every child was discarded or is already sent
+	}
 }
 
 func (m *monitor) ackRecord(r *recState) {
@@ -230,9 +233,9 @@ func (m *monitor) ackRecord(r *recState) {
 }
 
 // onAck: the output's send returned for a batch holding these events
-// (children of split records and their parents included). A split record is
-// acknowledged when its parent and all its children handed to the output
-// have been sent.
+// (children of split records included). A split record is acknowledged when
+// its parent has reached the output (after its children) and all its
+// children handed to the output have been sent.
 func (m *monitor) onAck(ids []string) {
 	m.mu.Lock()
 	defer m.mu.Unlock()
@@ -241,18 +244,18 @@ func (m *monitor) onAck(ids []string) {
 	for _, id := range ids {
 		if r := m.byID[id]; r != nil {
 			if r.Kids > 0 {
+				// the parent of split children is never sent itself (the
+				// Batcher skips it, a batch of parents only is not sent at all)
 				r.parentAck = true
-				m.stat["split_parents_acked"]++
-				if r.kidsAcked >= r.kidsOut {
-					m.ackRecord(r)
-				}
+				m.stat["split_parents_seen_in_a_sent_batch"]++
 				continue
 			}
 			m.ackRecord(r)
 		} else if pr, ok := m.parentOf(id); ok {
 			pr.kidsAcked++
 			m.stat["split_children_acked"]++
-			if pr.parentAck && pr.kidsAcked >= pr.kidsOut && !pr.acked {
+			// the parent reaches the output after all its children: from then on the number of children is final
+			if pr.outIdx > 0 && pr.kidsAcked >= pr.kidsOut && !pr.acked {
 				m.ackRecord(pr)
 			}
 		}
